@@ -26,7 +26,7 @@ Proof. exact validate_membername_spec. Qed.
 Print Assumptions C08_member.
 
 (* ObjectPath::new succeeds exactly on valid paths and wraps the string unchanged *)
-Corollary C08_objectpath_new : forall s p, objectpath_new s = Ok p <-> (ValidPath s /\ p = s).
+Theorem C08_objectpath_new : forall s p, objectpath_new s = Ok p <-> (ValidPath s /\ p = s).
 Proof.
   intros s p. split.
   - intros H. split; [apply objectpath_new_spec; eauto|exact (objectpath_new_value s p H)].
@@ -35,15 +35,15 @@ Proof.
 Qed.
 Print Assumptions C08_objectpath_new.
 
-(* every public constructor of the wrapper (ObjectPath::new, TryFrom<&str>, TryFrom<String>) accepts exactly the
-   valid paths and keeps the string *)
-Corollary C08_objectpath_ctors : forall f s p, objectpath_ctor f -> (f s = Ok p <-> (ValidPath s /\ p = s)).
+(* every way of obtaining the wrapper (ObjectPath::new, TryFrom<&str>, TryFrom<String>, and decoding it from a
+   message body with impl Unmarshal for ObjectPath) accepts exactly the valid paths and keeps the string *)
+Theorem C08_objectpath_ctors : forall f s p, objectpath_ctor f -> (f s = Ok p <-> (ValidPath s /\ p = s)).
 Proof. exact objectpath_ctor_spec. Qed.
 Print Assumptions C08_objectpath_ctors.
 
 (* hence the typed Marshal impl for ObjectPath, which does not validate again, only ever writes valid paths:
    a wrapper obtained from any constructor (and its to_owned copy) marshals, and what is written is the valid path *)
-Corollary C08_typed_path_wire : forall f s p, objectpath_ctor f -> f s = Ok p ->
+Theorem C08_typed_path_wire : forall f s p, objectpath_ctor f -> f s = Ok p ->
   marshal_objectpath_typed p = Ok s /\ marshal_objectpath_typed (objectpath_to_owned p) = Ok s /\ ValidPath s.
 Proof. exact typed_path_wire. Qed.
 Print Assumptions C08_typed_path_wire.
@@ -60,12 +60,12 @@ Print Assumptions C08_total.
 
 (* the header marshaller: when it succeeds it has written exactly the names of the message, in header
    order, and every one of them is in the language its header field requires ... *)
-Corollary C08_wire : forall h w, marshal_header_names h [] = Ok w -> w = names_of h /\ Forall FieldValid w.
+Theorem C08_wire : forall h w, marshal_header_names h [] = Ok w -> w = names_of h /\ Forall FieldValid w.
 Proof. intros h w H. apply marshal_header_names_spec in H. destruct H as [-> Hv]. auto. Qed.
 Print Assumptions C08_wire.
 
 (* ... it succeeds whenever all names of the message are valid, and reports an error otherwise *)
-Corollary C08_wire_accept : forall h,
+Theorem C08_wire_accept : forall h,
   (Forall FieldValid (names_of h) -> marshal_header_names h [] = Ok (names_of h)) /\
   (~ Forall FieldValid (names_of h) -> marshal_header_names h [] = Err).
 Proof.
@@ -77,8 +77,31 @@ Proof.
 Qed.
 Print Assumptions C08_wire_accept.
 
-(* an object path in a message body (params::Base::ObjectPath) is written iff it is valid, unchanged *)
-Corollary C08_body_path : forall s w, marshal_objectpath s = Ok w <-> (ValidPath s /\ w = s).
+(* the message-level entry: the required-field check of marshal_header comes first and does not weaken this *)
+Theorem C08_wire_msg : forall typ rs h w, marshal_header_msg typ rs h = Ok w <->
+  (typ <> MInvalid /\ has_required_fields typ rs h = true /\ w = names_of h /\ Forall FieldValid (names_of h)).
+Proof. exact marshal_header_msg_spec. Qed.
+Print Assumptions C08_wire_msg.
+
+(* receive side ("never refuses a name a conforming peer may send", and never accepts another): the header decoder
+   yields the name in field `code` iff the string decoder delivered it and it is in the field's language *)
+Theorem C08_receive : forall code f r s, name_field_decoder code = Some f ->
+  (f r = Ok s <-> (r = Ok s /\ FieldValid (code, s))).
+Proof. exact name_field_decoder_spec. Qed.
+Print Assumptions C08_receive.
+
+(* the three decoders of an object path in a body (typed wrapper, params::Base::ObjectPath, validate_raw) accept
+   iff the string decoder delivered a valid path *)
+Theorem C08_receive_path : forall r s,
+  (objectpath_unmarshal r = Ok s <-> (r = Ok s /\ ValidPath s)) /\
+  (unmarshal_param_objectpath r = Ok s <-> (r = Ok s /\ ValidPath s)) /\
+  (validate_raw_objectpath r = Ok tt <-> exists x, r = Ok x /\ ValidPath x).
+Proof. exact path_decoders_spec. Qed.
+Print Assumptions C08_receive_path.
+
+(* an object path in a message body (params::Base::ObjectPath and ObjectPathRef, alone or inside an array,
+   struct, variant or as a dict key: all go through marshal_base_param -> marshal_objectpath) is written iff it is valid, unchanged *)
+Theorem C08_body_path : forall s w, marshal_objectpath s = Ok w <-> (ValidPath s /\ w = s).
 Proof. exact marshal_objectpath_spec. Qed.
 Print Assumptions C08_body_path.
 
